@@ -25,6 +25,13 @@ Theorem c06_stored_is_name : forall p b, wf_prep p = true -> compat p b = true -
 Proof. intros p b Hw Hc Hf name. exact (stored_identity p b Hw Hc name Hf). Qed.
 Print Assumptions c06_stored_is_name.
 
+(* ... while on a backend that folds bare identifiers to upper case (Oracle) the stored name is the name
+   up to ASCII case: lower-casing what is stored gives the name back (the convention normalize_name implements) *)
+Theorem c06_stored_upper_is_name_ignoring_case : forall p b, wf_prep p = true -> compat p b = true ->
+  forall name, requires_quotes p name = Ok false -> map ascii_lower1 (map ascii_upper1 name) = name.
+Proof. exact bare_fold_upper_lower. Qed.
+Print Assumptions c06_stored_upper_is_name_ignoring_case.
+
 (* DEFECT (all dialects): legal_characters is ^[A-Z0-9_$]+$ and "$" also matches before a final newline,
    so "a\n" is emitted bare and the backend reads the identifier a *)
 Theorem c06_quote_lexes_back_refuted : exists p b name text,
@@ -32,6 +39,12 @@ Theorem c06_quote_lexes_back_refuted : exists p b name text,
   quote p name = Ok text /\ lex_sent b text = Some [97] /\ name = [97; 10].
 Proof. exists sample_prep, sample_backend, [97; 10], [97; 10]. vm_compute. repeat split; discriminate. Qed.
 Print Assumptions c06_quote_lexes_back_refuted.
+
+(* ... and the guard is exact: EVERY name of the excluded region is emitted bare and is not read back *)
+Theorem c06_quote_lexes_back_refuted_all : forall p b, wf_prep p = true -> compat p b = true ->
+  forall name, bare_nl p name = true -> quote p name = Ok name /\ lex_sent b name <> Some name.
+Proof. exact bare_nl_never_roundtrips. Qed.
+Print Assumptions c06_quote_lexes_back_refuted_all.
 
 (* forced quoting (quoted_name(..., quote=True)) always reads back as the name, the empty name included *)
 Theorem c06_quote_identifier_lexes_back : forall p b, wf_prep p = true -> compat p b = true ->
@@ -44,6 +57,14 @@ Theorem c06_not_legal_is_quoted : forall p name, name <> [] -> legal_match p nam
   requires_quotes p name = Ok true.
 Proof. exact requires_quotes_not_legal. Qed.
 Print Assumptions c06_not_legal_is_quoted.
+
+(* EXACT description of unformat_identifiers(format(...)): every component comes back, with each "%"
+   doubled when the dialect doubles percent signs ([pctd]) *)
+Theorem c06_unformat_format_exact : forall p, wf_prep p = true -> forall names text,
+  format_path p names = Ok text -> Forall (fun v => v <> []) names ->
+  unformat p text = Some (map (pctd p) names).
+Proof. exact unformat_format_exact. Qed.
+Print Assumptions c06_unformat_format_exact.
 
 (* splitting a formatted dotted identifier recovers the components.  Guard: "%" doubling is off, or no
    component contains "%" *)
@@ -64,6 +85,14 @@ Proof.
   repeat split. constructor; [discriminate|constructor].
 Qed.
 Print Assumptions c06_unformat_format_refuted.
+
+(* ... and the guard is exact: whenever the dialect doubles "%" and some component contains one, the
+   components are NOT recovered *)
+Theorem c06_unformat_format_refuted_all : forall p, wf_prep p = true -> forall names text,
+  format_path p names = Ok text -> Forall (fun v => v <> []) names ->
+  p_esc_pct p = true -> Exists (fun v => In pct v) names -> unformat p text <> Some names.
+Proof. exact unformat_format_refuted_all. Qed.
+Print Assumptions c06_unformat_format_refuted_all.
 
 (* format_table / format_column (schema.table.column) are such dotted forms *)
 Theorem c06_format_column_unformat_guarded : forall p, wf_prep p = true -> forall s t c text,
